@@ -226,12 +226,32 @@ func shortFuncName(fn *ssa.Function) string {
 
 // ---------- obligations ----------
 
+// CurrentProperty is the property whose check is running (empty outside `check`).
+var CurrentProperty string
+
 func (x *Exec) oblige(fr *Frame, st *State, kind, label string, pos token.Pos, goal *Term) {
 	if st.dry {
 		return
 	}
 	if panicKinds[kind] && !x.noPanic {
 		return
+	}
+	// a clause label may end in "@C02" or "@C02,C09": the clause is an obligation only in the checks of those
+	// properties (it is assumed at call sites everywhere); the tag is not part of the obligation's name
+	if i := strings.LastIndex(label, "@C"); i >= 0 && !strings.ContainsAny(label[i:], " >:()") {
+		tags := strings.Split(label[i+1:], ",")
+		label = label[:i]
+		if CurrentProperty != "" {
+			found := false
+			for _, t := range tags {
+				if t == CurrentProperty {
+					found = true
+				}
+			}
+			if !found {
+				return
+			}
+		}
 	}
 	if fr != nil && fr.chain != "" {
 		label = fr.chain + ">" + label
